@@ -372,3 +372,28 @@ func (s RState) IsInit() bool {
 	}
 	return true
 }
+
+// MatchSeq reports whether the code points w are in (∪ pre)* · (∪ fin), where
+// pre and fin are rule indices of mode m: the text of one lexer result that
+// ends with a match of one of the fin rules after any number of matches of
+// accumulating rules.
+func (c *Compiled) MatchSeq(m *CMode, pre, fin []int, w []int) bool {
+	var ps, fs []int
+	for _, i := range pre {
+		ps = append(ps, m.Init[i])
+	}
+	for _, i := range fin {
+		fs = append(fs, m.Init[i])
+	}
+	id := c.alt(fs...)
+	if len(ps) > 0 {
+		id = c.cat(c.star(c.alt(ps...)), id)
+	}
+	for _, cp := range w {
+		id = c.Deriv(id, c.AtomOf(cp))
+		if id == idEmpty {
+			return false
+		}
+	}
+	return c.Nullable(id)
+}
